@@ -19,7 +19,8 @@ TECHNIQUE = (
 RULE = (
     "nosource: plain = all strings <= 5 over {a,b,' '} x all ordered tuples of <= 2 (quick) / 3 (thorough, |plain| <= 4) spans; "
     "forced: plains of distinct and repeated letters x all placements of <= k insertions from {<i>,</i>,<b>,</b>,\\n,\\t\\t} x "
-    "all <= 2-span tuples x 2 engines; updater: all ordered pairs of strings <= 4 over {x,y,<} x 2 engines x 2 bisect "
+    "all <= 2-span tuples x 2 engines; long: 2 plain texts of > 200 characters x 4 word-level insertion patterns x all word-run spans "
+    "and adjacent pairs x 2 engines; updater: all ordered pairs of strings <= 4 over {x,y,<} x 2 engines x 2 bisect "
     "functions x all offsets. non-trivial = >= 1 annotation that is non-empty and not overlapped by an earlier one."
 )
 ASSUMPTIONS = [
@@ -86,6 +87,53 @@ def check_updater(a, b, dmp):
     return res
 
 
+LONG_PLAINS = [
+    "See Roe v. Wade, 410 U.S. 113, 153 (1973); Doe v. Bolton, 410 U.S. 179 (1973). The court in Griswold v. Connecticut, "
+    "381 U.S. 479, 484 (1965), had said as much. Id. at 485. See also Eisenstadt v. Baird, 405 U.S. 438 (1972); Roe, supra, at 152.",
+    "aa bb aa bb aa bb cc aa bb aa dd aa bb aa bb aa bb cc aa bb aa dd aa bb aa bb aa bb cc aa bb aa dd aa bb aa bb aa bb cc aa bb "
+    "aa dd aa bb aa bb aa bb cc aa bb aa dd aa bb aa bb aa bb cc aa bb aa dd aa bb aa bb aa bb cc aa bb aa dd ee",
+]
+
+
+def long_sources(plain):
+    """Sources with foreign insertions at word granularity; -> (name, source, pos)."""
+    def build(ins_before):  # ins_before(i) = string inserted before plain[i] (i == len: at the end)
+        parts, pos, L = [], [], 0
+        for i in range(len(plain) + 1):
+            t = ins_before(i)
+            parts.append(t)
+            L += len(t)
+            if i < len(plain):
+                pos.append(L)
+                parts.append(plain[i])
+                L += 1
+        return "".join(parts), pos
+
+    n = len(plain)
+    yield ("nl-after-space",) + build(lambda i: "\n" if 0 < i <= n and plain[i - 1] == " " else "")
+    yield ("tab-before-digit",) + build(lambda i: "\t" if i < n and plain[i].isdigit() and (i == 0 or not plain[i - 1].isdigit()) else "")
+    def tags(i):
+        out = ""
+        if 0 < i <= n and plain[i - 1] != " " and (i == n or plain[i] == " "):
+            out += "</i>"
+        if i < n and plain[i] != " " and (i == 0 or plain[i - 1] == " "):
+            out += "<i>"
+        return out
+    yield ("i-around-words",) + build(tags)
+    yield ("nl-every-3rd-space",) + build(lambda i: "\n\n" if 0 < i <= n and plain[i - 1] == " " and plain[:i].count(" ") % 3 == 0 else "")
+
+
+def word_spans(plain, maxwords=3):
+    starts = [i for i in range(len(plain)) if plain[i] != " " and (i == 0 or plain[i - 1] == " ")]
+    ends = [i + 1 for i in range(len(plain)) if plain[i] != " " and (i + 1 == len(plain) or plain[i + 1] == " ")]
+    out = []
+    for wi, s in enumerate(starts):
+        for k in range(maxwords):
+            if wi + k < len(ends):
+                out.append((s, ends[wi + k]))
+    return out
+
+
 def replay(case):
     if case["part"] == "updater":
         res = check_updater(case["a"], case["b"], case["dmp"])
@@ -105,6 +153,9 @@ def shards(tier, seed):
     strs = annot.strings(["x", "y", "<"], 4)
     for r in range(8):
         out.append({"part": "updater", "r": r, "n": 8})
+    for li in range(len(LONG_PLAINS)):
+        for r in range(8):
+            out.append({"part": "long", "li": li, "r": r, "n": 8})
     return out
 
 
@@ -150,6 +201,15 @@ def run_shard(sh):
                     case = {"part": sh["part"], "plain": plain, "source": source, "pos": pos, "spans": [list(s) for s in ss], "mode": mode, "dmp": dmp}
                     st.violation(case, f"{lab}: {det} :: plain={plain!r} source={source!r} spans={ss} mode={mode} engine={'dmp' if dmp else 'difflib'}", label=f"{sh['part']}-{lab}")
 
+    if sh["part"] == "long":
+        plain = LONG_PLAINS[sh["li"]]
+        spans = word_spans(plain)
+        for name, source, pos in long_sources(plain):
+            # all single word-run spans + all adjacent pairs, both engines (difflib switches heuristics on at 200 characters)
+            sets = [(sp,) for sp in spans] + [(a, b) for a in spans for b in spans if a[1] < b[0] and b[0] - a[1] <= 2]
+            for ss in sets[sh["r"] :: sh["n"]]:
+                run(plain, source, pos, ss, ("unchecked",), (True, False))
+        return st
     if sh["part"] == "nosource":
         for plain in annot.strings(["a", "b", " "], 5)[sh["r"] :: sh["n"]]:
             n = len(plain)
